@@ -273,6 +273,10 @@ var rejections = []string{
 	"HTTP/1.1 503 Service Unavailable\r\nRetry-After: 3\r\nContent-Length: 0\r\n\r\n",
 	"HTTP/1.0 403 Forbidden\r\n\r\nno",
 	"HTTP/1.1 429 Too Many Requests\r\nContent-Length: 3\r\n\r\n429",
+	// an upstream forwarder marks its own rejections: the field is the upstream's and must pass through
+	"HTTP/1.1 403 Forbidden\r\nContent-Type: text/plain; charset=utf-8\r\nX-Forwarder-Error: upstream-fwd proxying denied\r\nContent-Length: 33\r\n\r\nupstream-fwd denied\nproxy denied\n",
+	"HTTP/1.1 502 Bad Gateway\r\nX-Forwarder-Error: upstream-fwd dial tcp: lookup failed\r\nX-Up-Strip: gone\r\nContent-Length: 0\r\n\r\n",
+	"HTTP/1.1 302 Found\r\nLocation: http://login.up.test/\r\nConnection: X-Hop\r\nX-Hop: 1\r\nContent-Length: 0\r\n\r\n",
 }
 
 var malformedHeads = []string{
@@ -369,10 +373,16 @@ func generate(r *core.Rand, quick bool) []*Case {
 			}
 		}
 	}
-	// E. upstream proxy rejecting / tearing / garbling its CONNECT reply
+	// E. upstream proxy rejecting / tearing / garbling its CONNECT reply. The rejection of a CONNECT of
+	// the proxy's own transport (https, mitm) is relayed as the answer to the client's request (F12,
+	// repaired): every reply x keep-alive / Connection: close / an HTTP/1.0 client, each round.
 	for _, rej := range rejections {
 		for _, via := range []string{"connect", "https", "mitm"} {
 			g.add(&Case{Kind: "connect", Via: via, Upstream: "up", ReplyHex: core.HexS(rej), CK: -1, ReqClose: r.Chance(25)})
+			if via != "connect" {
+				g.add(&Case{Kind: "connect", Via: via, Upstream: "up", ReplyHex: core.HexS(rej), CK: -1, ReqClose: true})
+				g.add(&Case{Kind: "connect", Via: via, Upstream: "up", ReplyHex: core.HexS(rej), CK: -1, ReqClose: r.Chance(50)}).ReqMinor = 0
+			}
 		}
 	}
 	small := rejections[1]
@@ -383,7 +393,18 @@ func generate(r *core.Rand, quick bool) []*Case {
 				vias = []string{"connect", "https", "mitm"}
 			}
 			for _, via := range vias {
-				g.add(&Case{Kind: "connect", Via: via, Upstream: "up", ReplyHex: core.HexS(small), CK: k, CReset: rst})
+				c := g.add(&Case{Kind: "connect", Via: via, Upstream: "up", ReplyHex: core.HexS(small), CK: k, CReset: rst, ReqClose: via != "connect" && r.Chance(30)})
+				if via != "connect" && r.Chance(15) {
+					c.ReqMinor = 0
+				}
+			}
+		}
+	}
+	if !quick {
+		for i := 0; i < 200; i++ {
+			c := g.add(&Case{Kind: "connect", Via: core.Pick(r, []string{"https", "mitm"}), Upstream: "up", ReplyHex: core.HexS(core.Pick(r, rejections)), CK: -1, ReqClose: r.Chance(40)})
+			if r.Chance(25) {
+				c.ReqMinor = 0
 			}
 		}
 	}
